@@ -208,3 +208,13 @@ Proof. vm_compute. auto. Qed.
 Lemma no_deadlock_after_fix :
   let s := brun (mk_bcfg 10 3 true) s2_schedule in blocked s = false /\ queue s = [] /\ committed s = [[1; 2; 3]] /\ pend s = [4].
 Proof. vm_compute. auto. Qed.
+
+Lemma deadlock_before_fix_stmt :
+  exists qcap maxsize (es : list (bev N)),
+    let s := brun (mk_bcfg qcap maxsize false) es in blocked s = true /\ queue s <> [] /\ accepted s = [1; 2; 3; 4].
+Proof. exists 10, 3, s2_schedule. vm_compute. repeat split; auto. discriminate. Qed.
+
+Lemma batch_example_l :
+  let s := brun (mk_bcfg 2 2 true) [Enq 1; Enq 2; Enq 3; Take true; Take true; SizeCommit true; Enq 4] in
+  accepted s = [1; 2; 4] /\ refused s = [3] /\ committed s = [[1; 2]] /\ queue s = [4].
+Proof. vm_compute. auto. Qed.
